@@ -212,3 +212,30 @@ Theorem hijacked_connection_is_released :
     exists s'', step s' (WFinish c) = Some s'' /\ wg s'' = pred (wg s') /\
                 exists w'', find_w c (workers s'') = Some w'' /\ w_pc w'' = CDone.
 Proof. exact hijack_exit_releases. Qed.
+
+(* Input that never reaches a handler.  A UDP datagram shorter than a DNS
+   header (0..11 octets) creates no worker and does not touch the WaitGroup:
+   the serve loop goes on as it was, so a later Shutdown has nothing to wait
+   for because of it. *)
+Theorem short_datagram_leaves_nothing_to_wait_for :
+  forall (s s' : state) (p : nat),
+    step s (SPacketShort p) = Some s' ->
+    md s = UDP /\ serve s = SRead /\ serve s' = SLoop /\ workers s' = workers s /\ wg s' = wg s /\
+    ph s' = ph s /\ shut s' = shut s /\ sds s' = sds s /\ pcdl s' = pcdl s.
+Proof. exact short_datagram_no_worker. Qed.
+
+(* A message the server drops or rejects by itself (no complete header,
+   MsgAcceptFunc says ignore or reject, the body does not unpack): no handler is
+   ever entered for it and no handler reply written; the worker that held it
+   finishes (UDP: its only step is wg.Done, after which it is done) or goes on
+   with the connection loop (TCP) - Shutdown waits for no handler because of it. *)
+Theorem dropped_message_starts_no_handler :
+  forall (s s' : state) (c : nat),
+    step s (WDrop c) = Some s' ->
+    (exists w, find_w c (workers s) = Some w /\ w_pc w = CGot) /\
+    step s' (HEnter c) = None /\ step s' (Reply c) = None /\ step s' (HExit c) = None /\
+    wg s' = wg s /\ ph s' = ph s /\ shut s' = shut s /\
+    (md s = UDP -> exists s'', step s' (WFinish c) = Some s'' /\ wg s'' = pred (wg s') /\
+                   exists w'', find_w c (workers s'') = Some w'' /\ w_pc w'' = CDone) /\
+    (md s = TCP -> exists s'', step s' (WCheck c) = Some s'').
+Proof. exact dropped_message_no_handler. Qed.
